@@ -4,6 +4,7 @@ import (
 	"bufio"
 	"encoding/json"
 	"fmt"
+	"strings"
 	"time"
 
 	"github.com/kubeshark/base/pkg/api"
@@ -85,6 +86,9 @@ func (d dissecting) Summarize(entry *api.Entry) *api.BaseEntry {
 
 	summary := ""
 	summaryQuery := ""
+	// one name and one query clause per topic, joined once at the end (a request can carry
+	// 65535 topics: appending to the strings inside the loops is quadratic)
+	var names, clauses []string
 	switch apiKey {
 	case Metadata:
 		_topics := entry.Request["payload"].(map[string]interface{})["topics"]
@@ -94,12 +98,8 @@ func (d dissecting) Summarize(entry *api.Entry) *api.BaseEntry {
 		topics := _topics.([]interface{})
 		for i, topic := range topics {
 			name := topic.(map[string]interface{})["name"].(string)
-			summary += fmt.Sprintf("%s, ", name)
-			summaryQuery += fmt.Sprintf(`request.payload.topics[%d].name == "%s" and `, i, name)
-		}
-		if len(summary) > 0 {
-			summary = summary[:len(summary)-2]
-			summaryQuery = summaryQuery[:len(summaryQuery)-5]
+			names = append(names, name)
+			clauses = append(clauses, fmt.Sprintf(`request.payload.topics[%d].name == "%s"`, i, name))
 		}
 	case ApiVersions:
 		summary = entry.Request["clientID"].(string)
@@ -112,12 +112,8 @@ func (d dissecting) Summarize(entry *api.Entry) *api.BaseEntry {
 		topics := _topics.([]interface{})
 		for i, topic := range topics {
 			name := topic.(map[string]interface{})["topic"].(string)
-			summary += fmt.Sprintf("%s, ", name)
-			summaryQuery += fmt.Sprintf(`request.payload.topicData[%d].topic == "%s" and `, i, name)
-		}
-		if len(summary) > 0 {
-			summary = summary[:len(summary)-2]
-			summaryQuery = summaryQuery[:len(summaryQuery)-5]
+			names = append(names, name)
+			clauses = append(clauses, fmt.Sprintf(`request.payload.topicData[%d].topic == "%s"`, i, name))
 		}
 	case Fetch:
 		_topics := entry.Request["payload"].(map[string]interface{})["topics"]
@@ -127,12 +123,8 @@ func (d dissecting) Summarize(entry *api.Entry) *api.BaseEntry {
 		topics := _topics.([]interface{})
 		for i, topic := range topics {
 			name := topic.(map[string]interface{})["topic"].(string)
-			summary += fmt.Sprintf("%s, ", name)
-			summaryQuery += fmt.Sprintf(`request.payload.topics[%d].topic == "%s" and `, i, name)
-		}
-		if len(summary) > 0 {
-			summary = summary[:len(summary)-2]
-			summaryQuery = summaryQuery[:len(summaryQuery)-5]
+			names = append(names, name)
+			clauses = append(clauses, fmt.Sprintf(`request.payload.topics[%d].topic == "%s"`, i, name))
 		}
 	case ListOffsets:
 		_topics := entry.Request["payload"].(map[string]interface{})["topics"]
@@ -142,12 +134,8 @@ func (d dissecting) Summarize(entry *api.Entry) *api.BaseEntry {
 		topics := _topics.([]interface{})
 		for i, topic := range topics {
 			name := topic.(map[string]interface{})["name"].(string)
-			summary += fmt.Sprintf("%s, ", name)
-			summaryQuery += fmt.Sprintf(`request.payload.topics[%d].name == "%s" and `, i, name)
-		}
-		if len(summary) > 0 {
-			summary = summary[:len(summary)-2]
-			summaryQuery = summaryQuery[:len(summaryQuery)-5]
+			names = append(names, name)
+			clauses = append(clauses, fmt.Sprintf(`request.payload.topics[%d].name == "%s"`, i, name))
 		}
 	case CreateTopics:
 		_topics := entry.Request["payload"].(map[string]interface{})["topics"]
@@ -157,31 +145,28 @@ func (d dissecting) Summarize(entry *api.Entry) *api.BaseEntry {
 		topics := _topics.([]interface{})
 		for i, topic := range topics {
 			name := topic.(map[string]interface{})["name"].(string)
-			summary += fmt.Sprintf("%s, ", name)
-			summaryQuery += fmt.Sprintf(`request.payload.topics[%d].name == "%s" and `, i, name)
-		}
-		if len(summary) > 0 {
-			summary = summary[:len(summary)-2]
-			summaryQuery = summaryQuery[:len(summaryQuery)-5]
+			names = append(names, name)
+			clauses = append(clauses, fmt.Sprintf(`request.payload.topics[%d].name == "%s"`, i, name))
 		}
 	case DeleteTopics:
 		payload := entry.Request["payload"].(map[string]interface{})
 		if _topicNames := payload["topicNames"]; _topicNames != nil {
 			for i, name := range _topicNames.([]interface{}) {
-				summary += fmt.Sprintf("%s, ", name.(string))
-				summaryQuery += fmt.Sprintf(`request.payload.topicNames[%d] == "%s" and `, i, name.(string))
+				names = append(names, name.(string))
+				clauses = append(clauses, fmt.Sprintf(`request.payload.topicNames[%d] == "%s"`, i, name.(string)))
 			}
 		} else if _topics := payload["topics"]; _topics != nil {
 			for i, topic := range _topics.([]interface{}) {
 				name := topic.(map[string]interface{})["name"].(string)
-				summary += fmt.Sprintf("%s, ", name)
-				summaryQuery += fmt.Sprintf(`request.payload.topics[%d].name == "%s" and `, i, name)
+				names = append(names, name)
+				clauses = append(clauses, fmt.Sprintf(`request.payload.topics[%d].name == "%s"`, i, name))
 			}
 		}
-		if len(summary) > 0 {
-			summary = summary[:len(summary)-2]
-			summaryQuery = summaryQuery[:len(summaryQuery)-5]
-		}
+	}
+
+	if len(names) > 0 {
+		summary = strings.Join(names, ", ")
+		summaryQuery = strings.Join(clauses, " and ")
 	}
 
 	return &api.BaseEntry{
